@@ -473,7 +473,7 @@ func truncate(limit int, s string) string {
 			_, size := utf8.DecodeRuneInString(s[i:])
 			if size == 1 {
 				// Invalid encoding.
-				b.Grow(len(s) - 1)
+				b.Grow(len(s)) // Never 0: b.Cap() != 0 marks that invalid input was found.
 				_, _ = b.WriteString(s[:i])
 				s = s[i:]
 				break
